@@ -1,7 +1,7 @@
 (* Pinned statements of the C17 theorems: this file fails to compile if a statement drifts. *)
 From Coq Require Import List Arith Bool.
 Import ListNotations.
-From NV Require Import Vector.Model Vector.History Vector.Wf Vector.HistoryAbs Vector.HistoryProofs Props.C17.
+From NV Require Import Vector.Model Vector.History Vector.Wf Vector.HistoryAbs Vector.HistoryProofs Vector.RcHeap Vector.RcHeapProofs Props.C17.
 
 Check (C17_history_refines : forall B ops, 2 <= B ->
   Forall2 (fun (x : res * istate) (y : res * sstate) =>
@@ -101,4 +101,26 @@ Check (C17_bit_ops_agree : forall k idx h,
   Nat.land (Nat.shiftr idx (Nat.log2 (2 ^ k) * h)) (2 ^ k - 1) = extract_index (2 ^ k) idx h).
 
 Check (C17_leaf_mask_agrees : forall k idx, Nat.land idx (2 ^ k - 1) = idx mod 2 ^ k).
+Check (C17_rc_set_refines_frame : forall A B (hp : @heap A) pre v post idx x vv vv',
+  hinv hp (pre ++ v :: post) -> vabs hp v = Some vv -> vset B vv idx x = Some vv' ->
+  exists hp' v', hvset B hp v idx x = Some (hp', v')
+    /\ hinv hp' (pre ++ v' :: post) /\ vabs hp' v' = Some vv'
+    /\ (forall w, In w (pre ++ post) -> vabs hp' w = vabs hp w)).
+
+Check (C17_rc_push_refines_frame : forall A B (hp : @heap A) pre v post x vv vv',
+  hinv hp (pre ++ v :: post) -> vabs hp v = Some vv -> vpush B vv x = Some vv' ->
+  exists hp' v', hvpush B hp v x = Some (hp', v')
+    /\ hinv hp' (pre ++ v' :: post) /\ vabs hp' v' = Some vv'
+    /\ (forall w, In w (pre ++ post) -> vabs hp' w = vabs hp w)).
+
+Check (C17_rc_clone : forall A (hp : @heap A) hs v, hinv hp hs -> In v hs ->
+  let (hp', v') := hvclone hp v in
+  hinv hp' (v' :: hs) /\ vabs hp' v' = vabs hp v /\ forall w, vabs hp' w = vabs hp w).
+
+Check (C17_rc_get : forall A B (hp : @heap A) v vv idx, vabs hp v = Some vv -> hvget B hp v idx = vget B vv idx).
+
+Check (C17_rc_new : forall A (hp : @heap A) hs, hinv hp hs ->
+  hinv hp (hvnew :: hs) /\ vabs hp hvnew = Some (@vnew A)).
+
+Check (C17_rc_init : forall A, hinv (@nil (@cell A)) []).
 
